@@ -172,9 +172,14 @@ func runBatch(self string, env []string, cases []Case, lo, hi int, perCase time.
 		select {
 		case e, ok := <-evs:
 			if !ok {
-				cmd.Wait()
+				werr := cmd.Wait()
 				if cur >= 0 {
-					on(Outcome{Case: cases[cur], Death: errBuf.String()})
+					// (a silent exit - the logger's Fatal with its output off calls os.Exit - is a death too)
+					d := errBuf.String()
+					if strings.TrimSpace(d) == "" {
+						d = fmt.Sprintf("the process exited while the case was running, without a message (%v)", werr)
+					}
+					on(Outcome{Case: cases[cur], Death: d})
 					return cur + 1
 				}
 				if doneUpTo < hi {
